@@ -281,18 +281,31 @@ func RunOne(t *testing.T, prop *PropDef, seed uint64, index int, tier string, re
 			ch = newPCT(rs) // a quarter of the runs: priority scheduling with 0-3 change points
 			ch.t = w.S
 			w.Config["policy"] = "pct"
+			w.Probes["policy_priority_pct"]++
 		} else {
 			sd, bud := policyFor(rs)
 			ch = &schedChooser{t: w.S, stickyDen: sd, preemptBudget: bud}
+			switch {
+			case bud >= 0:
+				w.Probes["policy_bounded_preemption"]++
+			case sd == 1:
+				w.Probes["policy_uniform"]++
+			default:
+				w.Probes["policy_sticky"]++
+			}
 		}
 	}
 	w.Net = &Net{w: w}
 	res := &RunResult{Index: index}
 	startWall := time.Now()
 	wd := time.AfterFunc(wallLimit, func() {
+		// the line first: the goroutine dump stops the world, which a goroutine stuck in non-preemptible
+		// code (a racy slice header handed to the race runtime, say) can delay for ever; the driver kills
+		// the process from outside in that case and still finds seed and index here
+		fmt.Fprintf(os.Stderr, "WATCHDOG prop=%s seed=%d index=%d: run exceeded %v of wall time\n", prop.ID, seed, index, wallLimit)
 		buf := make([]byte, 1<<20)
 		n := runtime.Stack(buf, true)
-		fmt.Fprintf(os.Stderr, "WATCHDOG prop=%s seed=%d index=%d: run exceeded %v of wall time\n%s\n", prop.ID, seed, index, wallLimit, buf[:n])
+		fmt.Fprintf(os.Stderr, "%s\n", buf[:n])
 		os.Exit(3)
 	})
 	// On its own goroutine: when the race detector flags the bubble, synctest.Test ends
